@@ -227,9 +227,13 @@ def fk_oracle(sch, facts):
 
 
 # ------------------------------------------------------------------ the run
-def run_family(c, profile, n_quick, n_thorough, compare, oracle, what, trusted_extra=(), command="store"):
+def run_family(c, profile, n_quick, n_thorough, compare, oracle, what, trusted_extra=(), command=None, subcmd="store",
+               tmpdir=None, extra_args=()):
+    subcmd = command or subcmd
     """compare(impl_tx, model_tx) -> None | description of the property-relevant difference
-       oracle(sch, case_txs, impl_obs, model_obs) -> list of (key, description, tx index)  : direct violations"""
+       oracle(sch, case_txs, impl_obs, model_obs) -> list of (key, description, tx index)  : direct violations
+       subcmd / tmpdir / extra_args (added for C04): harness sub-command that runs the histories (default the in-process
+       "store"; "store-iso" = child-process isolation), directory of the bolt files, further harness arguments"""
     pid = c.pid
     c.cov["trusted_base"] = [
         "Coq 8.16.1 kernel (coqc; coqchk in the thorough tier); vm_compute in Examples only; no axioms",
@@ -251,11 +255,11 @@ def run_family(c, profile, n_quick, n_thorough, compare, oracle, what, trusted_e
         with open(rin, "w") as f:
             f.write(rp["case"] + "\n")
         n = 0
-        args = [harness, "store", "--out", c.work, "--tmp", c.work, "--n", "0", "--corpus", rin]
+        args = [harness, subcmd, "--out", c.work, "--tmp", tmpdir or c.work, "--n", "0", "--corpus", rin] + list(extra_args)
     else:
         n = n_thorough if c.thorough else n_quick
-        args = [harness, command, "--seed", str(c.seed), "--tier", c.tier, "--out", c.work, "--tmp", c.work,
-                "--profile", profile, "--n", str(n)]
+        args = [harness, subcmd, "--seed", str(c.seed), "--tier", c.tier, "--out", c.work, "--tmp", tmpdir or c.work,
+                "--profile", profile, "--n", str(n)] + list(extra_args)
     gen = dict(profile=profile, seed=c.seed, tier=c.tier, n=n)
     corpus = os.path.join(vlib.VERIF, "corpus", "store", profile + ".txt")
     if os.path.exists(corpus) and not c.replay:
